@@ -71,7 +71,7 @@ ASSUMPTIONS = [
 	"func itself is assumed (C06/C09); tolerance 1e-9 on float64",
 	"caller tensors being modified is only counted (not part of C08)",
 ]
-REQUIRED = {"failed_wrapper_calls": 20, "seed_history_calls": 20, "cap_calls_observed": 50, "ann_ne_out_cases": 10,
+REQUIRED = {"kwargs_overlap_calls": 6, "failed_wrapper_calls": 20, "seed_history_calls": 20, "cap_calls_observed": 50, "ann_ne_out_cases": 10,
 	"product_nondividing": 10, "args_cases": 50}
 TIMEOUT = {"quick": 900, "thorough": 5400}
 # cases cost 1-10 ms, a worker start (torch + numba imports) ~10 s
@@ -1120,6 +1120,78 @@ def _same_nested(a, b):
 	return a == b
 
 
+def case_kwargs_overlap(cls, params, rec):
+	"""additional_func_kwargs is documented as the route for func arguments
+	whose names overlap with the wrapper's own (start, alphabet, n, ...).
+	func here has its own `start` / `end` / `n`; the wrapper's `start` places
+	the motif, func's `start`/`end` crop what it returns."""
+	from tangermeme.marginalize import marginalize, marginalize_annotations
+	from tangermeme.ablate import ablate
+	from tangermeme.space import space
+	r = gen.pyrng(ID, "overlap", params["hseed"])
+	B, L = params["B"], params["L"]
+	seqs = distinct_seqs(r, B, L)
+	X = gen.ohe(seqs, dtype=torch.float32)
+	seqs0 = distinct_seqs(r, B, L)
+	X0 = gen.ohe(seqs0, dtype=torch.float32)
+	model = torch.nn.Identity()
+	fs, fe, fn_ = params["fstart"], params["fend"], params["fn_extra"]
+
+	def func(model, X, args=None, start=0, end=None, n=1, **kw):
+		return X[:, :, start:end].clone().to(torch.float64) * n
+
+	afk = {"start": fs, "end": fe, "n": fn_}
+	w = params["wrapper"]
+	p0 = params["pos"]
+
+	def crop(strs):
+		return gen.ohe(strs, dtype=torch.float64)[:, :, fs:fe] * fn_
+
+	if w == "marginalize":
+		st, val = gen.call(marginalize, model, X, "ACG", start=p0, func=func,
+			additional_func_kwargs=dict(afk))
+		exp = (crop(seqs), crop([sub_str(s_, "ACG", p0) for s_ in seqs]))
+	elif w == "marginalize_annotations":
+		ann = [[i % B, 1 + i, 4 + i] for i in range(2)]
+		st, val = gen.call(marginalize_annotations, model, X, X0,
+			torch.tensor(ann), start=p0, func=func,
+			additional_func_kwargs=dict(afk))
+		exp = (torch.stack([crop(seqs0) for _ in ann]), torch.stack([crop([
+			sub_str(t_, seqs[i_][a_:b_], p0) for t_ in seqs0])
+			for i_, a_, b_ in ann]))
+	elif w == "space":
+		st, val = gen.call(space, model, X, ["AC", "GT"], [[1], [2]],
+			start=p0, func=func, additional_func_kwargs=dict(afk))
+		rows = [multisub(seqs, [["AC"] * B, ["GT"] * B], row, p0)
+			for row in ([1], [2])]
+		exp = (torch.stack([crop(seqs)] * 2, dim=1), torch.stack([crop(r_)
+			for r_ in rows], dim=1))
+	else:
+		rec.inconclusive(cls, params, "unknown wrapper")
+		return
+	rec.count("kwargs_overlap_calls")
+	det = {"wrapper": w, "sequences": seqs, "wrapper_start": p0,
+		"additional_func_kwargs": afk}
+	if st == "raise":
+		rec.violation(cls, params, dict(det, what="raised although "
+			"overlapping names were routed through additional_func_kwargs",
+			error=repr(val)[:300]), mech="C08/additional-func-kwargs-overlap")
+		return
+	for name, got, e_ in (("before", val[0], exp[0]), ("after", val[1],
+		exp[1])):
+		if not (isinstance(got, torch.Tensor) and sq(got).shape == sq(
+			e_).shape and torch.equal(sq(got), sq(e_))):
+			rec.violation(cls, params, dict(det, what="'%s' is not func "
+				"applied with the additional_func_kwargs to the input "
+				"perturbed at the wrapper's own start" % name,
+				got_shape=str(tuple(got.shape)) if isinstance(got,
+				torch.Tensor) else str(type(got)),
+				expected_shape=str(tuple(e_.shape))),
+				mech="C08/additional-func-kwargs-overlap")
+			return
+	rec.held(cls, params, nontrivial=True)
+
+
 def case_ablate_seed_history(cls, params, rec):
 	"""Call history: ablate(..., random_state=s_k, func=deep_lift_shap) for a
 	sequence of different seeds on the same model.  The documentation says
@@ -1193,6 +1265,8 @@ CASES = {
 def run_case(cls, params, rec):
 	if params["fn"] == "failure_reuse":
 		return case_failure_reuse(cls, params, rec)
+	if params["fn"] == "kwargs_overlap":
+		return case_kwargs_overlap(cls, params, rec)
 	if params["fn"] == "ablate_seed_history":
 		with warnings.catch_warnings():
 			warnings.simplefilter("ignore")
@@ -1419,6 +1493,15 @@ def run_unit(unit, rec):
 				"n_args": 0, "wrapper": w, "B": r0.randint(2, 4),
 				"L": r0.randint(12, 20), "pos": r0.randint(0, 8),
 				"hseed": r0.randrange(10 ** 6)}, rec)
+		for w in ("marginalize", "marginalize_annotations", "space"):
+			L_ = r0.randint(14, 22)
+			fs_ = r0.randint(0, 5)
+			run_case("kwargs-overlap", {"fn": "kwargs_overlap",
+				"func": "cap-x", "n_args": 0, "wrapper": w,
+				"B": r0.randint(2, 3), "L": L_, "pos": r0.randint(0, 4),
+				"fstart": fs_, "fend": r0.randint(fs_ + 3, L_),
+				"fn_extra": r0.randint(2, 5), "hseed": r0.randrange(10 ** 6)},
+				rec)
 		r = gen.pyrng(ID, unit["seed"], "seedhist", unit["rep"])
 		for t in range(3):
 			L = r.randint(12, 24)
